@@ -1313,6 +1313,9 @@ func emptyChecks(p *Program, fn *ssa.Function) map[int]bool {
 			if !blockReturnsNonNilError(eqSucc) {
 				continue
 			}
+			if partial, _ := elementOfPartialScan(other); partial {
+				continue // read under the counter of a loop over another list: the tail is never looked at
+			}
 			for i, par := range fn.Params {
 				if isHashSlice(par.Type()) && derivesDeep(other, func(x ssa.Value) bool { return x == ssa.Value(par) }, 0, map[ssa.Value]bool{}) {
 					out[i] = true
@@ -4410,6 +4413,9 @@ func emptyPredicate(h *ssa.Function, par *ssa.Parameter) bool {
 				continue
 			}
 			if !derivesDeep(other, func(x ssa.Value) bool { return x == ssa.Value(par) }, 0, map[ssa.Value]bool{}) {
+				continue
+			}
+			if partial, _ := elementOfPartialScan(other); partial {
 				continue
 			}
 			var iff *ssa.If
